@@ -210,6 +210,15 @@ def translate():
     def tree_of(rel):
         if rel not in cache:
             cache[rel] = ast.parse((REPO / rel).read_text())
+            # decorators / rebinding / setattr on the classes whose methods are read below (tools/guard.py)
+            key = rel.split("anyio/", 1)[1]
+            import guard
+            want = {c for (r, c, *_rest) in list(ROWS.values()) + list(DELEGATIONS.values()) if r == rel and c}
+            have = [c for c in sorted(want) if c in guard.TABLE.get(key, {})]
+            try:
+                guard.check(key, cache[rel], have)
+            except guard.GuardError as e:
+                raise Refuse(str(e))
         return cache[rel]
 
     for row, (rel, cls, fn, sel, deleg) in sorted(ROWS.items()):
